@@ -193,7 +193,12 @@ class _DehintingT2Decompiler(T2WidthExtractor):
 
         if hints.status != 2:
             # Check from last_check, make sure we didn't have any operators.
-            for i in range(hints.last_checked, len(charString.program) - 1):
+            # The final return/endchar does not count; CFF2 programs have
+            # neither, so their last token must be looked at as well.
+            end = len(charString.program)
+            if end and charString.program[-1] in ("return", "endchar"):
+                end -= 1
+            for i in range(hints.last_checked, end):
                 if isinstance(charString.program[i], str):
                     hints.status = 2
                     break
